@@ -439,6 +439,13 @@ def oracle_c17(tr, fail, stats):
                 if st != leg["post"]:
                     fail("C17:written-state-is-not-the-committed-state", {**base, "leg": i}, "state handed to the output handler differs from the global state after the commit")
             stats["c17_samples"] = stats.get("c17_samples", 0) + 1
+    if t_end is not None:
+        for i, t in enumerate(ets):
+            if t is not None and tval(t) > Fr(t_end):
+                fail("C17:event-committed-after-the-end-time", {**base, "leg": i, "t": t, "t_end": t_end,
+                                                                "handler": meta["handlers"][tr["legs"][i]["chosen"]]},
+                     "an event was committed at a time after the configured end of the run")
+                break
     if tr["end"] == "EndOfRun" and t_end is not None and tr["legs"]:
         last = tr["legs"][-1]
         t = ets[-1]
